@@ -20,7 +20,15 @@ RULE = ("expr: random operator trees (depth <= 3) over Laurent polynomial litera
         "unequal pairs; non-trivial = both sides evaluate and one has >= 2 terms. eval: p(v) under the three "
         "schemes, (p+q)(v), (p*q)(v), p(q), p(q)(v), p(q(v)); non-trivial = v != 0 and p has >= 2 terms. lagr: "
         "1..5 points (exhaustive small grids + random), f(x_j), poly(x_j), f(v), poly(v); non-trivial = >= 2 "
-        "distinct abscissae. Distinct = distinct case hash.")
+        "distinct abscissae. lagh: histories of 2-4 lagrange calls in one process on the same abscissa VALUES in "
+        "different numeric types (float on power-of-two grids / Fraction / ExactQ), orders, ordinates, list or one-shot "
+        "iterator arguments; every call must equal the per-call model; non-trivial = two types, >= 2 points. hist: "
+        "histories on live Poly objects (near-miss pairs -1/-2, 1/2 compared before and after hash / set / dict "
+        "insertion; the caller's dict / OrderedDict / list mutated after construction; item assignment on operands "
+        "and results of diff(0), copy, +p, p+0, p*1, p**1, Poly(p), ... with fresh equal polynomials hashed for "
+        "stale-hash detection; random histories); after every step all variables' terms, the ==, != and hash-equality "
+        "matrices and set sizes are observed; non-trivial = a hash step plus a mutation or two constructions. "
+        "Distinct = distinct case hash.")
 EXHAUSTIVE = {"quick": False, "thorough": False}
 trusted_base = [
   "coefficients are exact rationals (ExactQ / int / Fraction / dyadic floats whose arithmetic is exact on the generated "
